@@ -61,10 +61,51 @@ def wrap(tagbytes, body, picks, constructed):
     return tagbytes + enc_len(len(body), pad=[0, 0, 1, 2, 3][picks.next(5)]) + body
 
 
+def real_variant(content, picks):
+    """another valid X.690 8.5.7 binary encoding of the same REAL: mantissa not normalised (N * 2^s, E - s) and/or the
+    exponent written in more octets than needed (DER demands the minimal odd-mantissa form, BER does not)"""
+    if not content or not (content[0] & 0x80) or (content[0] & 0x3c):
+        return content      # special values, decimal forms, other bases: left alone
+    first = content[0]
+    if first & 3 == 3:
+        elen, off = content[1], 2
+    else:
+        elen, off = (first & 3) + 1, 1
+    e = int.from_bytes(content[off:off + elen], 'big', signed=True)
+    n = int.from_bytes(content[off + elen:], 'big')
+    s = picks.next(4)
+    n2, e2 = n << s, e - s
+    elen2 = 1
+    while not -(1 << (8 * elen2 - 1)) <= e2 < (1 << (8 * elen2 - 1)):
+        elen2 += 1
+    elen2 += picks.next(2)
+    if elen2 > 2:
+        return content      # 3-octet / length-prefixed exponents: the library declares them unsupported (not in the list
+        #                     of forms the property names)
+    eb = e2.to_bytes(elen2, 'big', signed=True)
+    nb = n2.to_bytes(max(1, (n2.bit_length() + 7) // 8), 'big')
+    return bytes([0x80 | (first & 0x40) | (elen2 - 1)]) + eb + nb
+
+
 def rewrite(node, picks, stats):
     """serialise the annotated tree in some other valid BER form"""
+    if node.kind == 'boolean' and node.content != b'\x00' and picks.next(2):
+        # X.690 8.2.2: any non-zero octet is TRUE
+        stats.add('boolean-true-nonff')
+        c = bytes([[0x01, 0x80, 0x7f, 0xfe, 0x10][picks.next(5)]])
+        return enc_tag(node.cls, node.num, False) + enc_len(1) + c
+    if node.kind == 'real' and picks.next(2):
+        c = real_variant(node.content, picks)
+        if c != node.content:
+            stats.add('real-not-normalised')
+            return enc_tag(node.cls, node.num, False) + enc_len(len(c)) + c
     if node.children is not None:
         kids = list(node.children)
+        if node.kind == 'setof' and len(kids) > 1 and picks.next(2):
+            # the order of SET OF elements is not significant in BER
+            k = picks.next(len(kids))
+            kids = kids[k:] + kids[:k]
+            stats.add('setof-permuted')
         if node.kind == 'set' and len(kids) > 1 and picks.next(2):
             k = picks.next(len(kids))
             kids = kids[k:] + kids[:k]
@@ -100,10 +141,12 @@ class C04(SpecValueCheck):
     codecs = ['ber']
     quick_n = 70
     thorough_n = 2500
-    rule = ('cases = generated modules x values (codec ber) x 4 re-serialisations of the value\'s TLV tree built by an '
+    rule = ('cases = generated modules x values (codec ber) x 4-5 re-serialisations of the value\'s TLV tree built by an '
             'independent X.690 encoder: each constructed node definite or indefinite+EOC, each length minimal or padded '
             'with 1-3 superfluous octets, each string / BIT STRING primitive or split into nested constructed segments '
-            '(depth <= 3), SET components permuted, and mixtures; oracle: ber.decode(variant) == value; evaluation = one '
+            '(depth <= 3), SET components permuted, and mixtures; also, as forms X.690 allows beyond that list: TRUE as any '
+            'non-zero octet, SET OF elements permuted, REAL with a non-normalised mantissa / longer exponent, components '
+            'equal to their DEFAULT written out; oracle: ber.decode(variant) == value; evaluation = one '
             'variant decoded; non-trivial = variant differs from the DER form; distinct = hash(type, variant bytes)')
     assumptions = ['variants are produced from the annotated tree of vlib/model/der.py (agreement of that model with the '
                    'library\'s DER output is checked by C03)']
@@ -131,10 +174,23 @@ class C04(SpecValueCheck):
         der = tlv.serialize(tree)
         cfg = aeq.EqCfg(numeric_enums=x.ne)
         salt = int(jsonio.h(x.name, der.hex()), 16)
-        for k in range(4):
+        tree_d = None
+        for k in range(5):
             picks = Picks([(salt >> (7 * i + k)) & 0x3ff for i in range(12)])
             stats = set()
-            variant = rewrite(tree, picks, stats)
+            t = tree
+            if k == 4:
+                # components equal to their DEFAULT written out (allowed in BER, X.690 8.9.2 NOTE / 11.5 is DER only)
+                if tree_d is None:
+                    try:
+                        tree_d = dmodel.encode_tree(x.spec, x.ty, x.modname, x.v, x.ne, explicit_defaults=True)
+                    except Exception:
+                        break
+                if tlv.serialize(tree_d) == der:
+                    break
+                t = tree_d
+                stats.add('defaults-present')
+            variant = rewrite(t, picks, stats)
             x.rec.ev()
             try:
                 tlv.parse(variant)
